@@ -220,10 +220,18 @@ const (
 	TMapStruct
 	TPtrStruct
 	TTextMap
+	TStatic
+	TMapIntKey
+	TArray3
+	TBytes
+	TUint64
+	TPtrPtrInt
+	TRedirect // marshal only (fork-specific RedirectMarshaler); decodes like any
+	TTrust    // marshal only (fork-specific TrustMarshaler); decodes like any
 	NumTargets
 )
 
-var targetNames = []string{"any", "map[string]any", "[]any", "RawMessage", "string", "float64", "int", "struct", "map[string]int", "[]int", "[]*Flaky", "map[string]*Flaky", "map[string]struct", "*struct", "map[string]FlakyText"}
+var targetNames = []string{"any", "map[string]any", "[]any", "RawMessage", "string", "float64", "int", "struct", "map[string]int", "[]int", "[]*Flaky", "map[string]*Flaky", "map[string]struct", "*struct", "map[string]FlakyText", "static type", "map[int]string", "[3]any", "[]byte", "uint64", "**int", "RedirectMarshaler", "TrustMarshaler"}
 
 var tagNames = []string{"a", "b", "c", "foo", "A", "Foo", "", "-", "bar", "a/b", "é"}
 
@@ -246,6 +254,18 @@ func StructType(seed uint64) reflect.Type {
 func genStruct(r *gen.R, depth int) (t reflect.Type) {
 	n := 1 + r.Intn(5)
 	var fields []reflect.StructField
+	if r.P(250) {
+		et := embedTypes[r.Intn(len(embedTypes))]
+		name := et.Name()
+		if et.Kind() == reflect.Pointer {
+			name = et.Elem().Name()
+		}
+		ef := reflect.StructField{Name: name, Type: et, Anonymous: true}
+		if r.P(150) {
+			ef.Tag = `json:"emb"`
+		}
+		fields = append(fields, ef)
+	}
 	for i := 0; i < n; i++ {
 		f := reflect.StructField{Name: fmt.Sprintf("F%d", i)}
 		if r.P(150) {
@@ -346,6 +366,18 @@ func NewTarget(kind int, typeSeed uint64) any {
 		return reflect.New(reflect.PointerTo(StructType(typeSeed))).Interface()
 	case TTextMap:
 		return new(map[string]FlakyText)
+	case TStatic:
+		return reflect.New(StaticType(typeSeed)).Interface()
+	case TMapIntKey:
+		return new(map[int]string)
+	case TArray3:
+		return new([3]any)
+	case TBytes:
+		return new([]byte)
+	case TUint64:
+		return new(uint64)
+	case TPtrPtrInt:
+		return new(**int)
 	}
 	return new(any)
 }
